@@ -281,8 +281,9 @@ namespace nmtools::index
 
             for (nm_size_t i=0; i<(nm_size_t)n_planes; i++) {
                 if constexpr (meta::is_index_array_v<dilation_t>) {
-                    // assume same length as n_planes
-                    at(result,i) = at(dilation,i) - 1;
+                    // assume same length as n_planes;
+                    // spacing i belongs to window axis -(i+1), dilation is given first plane first
+                    at(result,i) = at(dilation,(nm_size_t)n_planes-1-i) - 1;
                 } else {
                     at(result,i) = dilation - 1;
                 }
